@@ -105,6 +105,7 @@ class Check(PropertyCheck):
                ("x\n# Legend:\na = {fill:red;</style><script>alert(1)</script>}\n",
                 [("rule", "a", "fill:red;</style><script>alert(1)</script>")])]
         out += [gen_case(self.rng) for _ in range(n)]
+        out += [(gen.zoo(self.rng), []) for _ in range(n // 4)]
         return out
 
     def correspondence(self):
